@@ -122,6 +122,62 @@ class Merge(Cmp):
         return []
 
 
+class HeadThenMerge(Cmp):
+    """A list of mappings: first *head*, then exactly the elements of all groups, keeping the
+    relative order inside every group (groups come from different documents).  Elements are
+    paired through their plain-valued *keys*; each pair is then compared in full (elements
+    may contain comparators)."""
+
+    def __init__(self, head, groups, keys):
+        self.head = head
+        self.groups = [list(g) for g in groups]
+        self.keys = keys
+
+    def json(self):
+        return [self.head] + self.groups
+
+    def diff(self, obs, path):
+        if not isinstance(obs, list) or not obs:
+            return [(path, 'list expected', {'observed': obs})]
+        d = diff(self.head, obs[0], path + '[0]')
+        if d:
+            return d
+        rest = obs[1:]
+        total = sum(len(g) for g in self.groups)
+        if len(rest) != total:
+            return [(path, 'length mismatch', {'expected': total + 1, 'observed': len(obs),
+                                               'observed_list': rest})]
+
+        def ident(x):
+            return canon([x.get(k) for k in self.keys]) if isinstance(x, dict) else None
+        used = set()
+        for g in self.groups:
+            last = -1
+            for x in g:
+                cands = [i for i in range(len(rest)) if i not in used and ident(rest[i]) == ident(x)]
+                if not cands:
+                    return [(path, 'element missing', {'expected': _plain(x), 'observed': rest})]
+                later = [i for i in cands if i > last]
+                if not later:
+                    return [(path, 'order within document not kept',
+                             {'expected_group': _plain(g), 'observed': rest})]
+                hit = later[0]
+                dd = diff(x, rest[hit], '%s[%d]' % (path, hit + 1))
+                if dd:
+                    return dd
+                used.add(hit)
+                last = hit
+        return []
+
+
+def _plain(x):
+    import json as _json
+    try:
+        return _json.loads(canon(x))
+    except Exception:
+        return repr(x)
+
+
 class PrefixThenSet(Cmp):
     """First the declared prefix in order, then the rest in any order."""
 
